@@ -19,7 +19,7 @@
     [catch_unwind]): arena indexing and the [unwrap]s on child links inside [_remove_node] /
     [_retain] — the model is a tree, not an arena; see DESIGN.md section 7. *)
 From Coq Require Import List NArith ZArith Bool Lia Permutation.
-From PT Require Import Lookup Lookup2 Mutate Slots Retain MutTrav UnionThm InterDiffThm HistoryExtra EntryApi InstEntry.
+From PT Require Import Lookup Lookup2 Mutate Slots Retain MutTrav UnionThm InterDiffThm HistoryExtra EntryApi InstEntry Arena ArenaThm Arena2 Arena2Thm InstArena.
 From PT.Properties Require Import Common.
 Import ListNotations.
 
@@ -218,6 +218,35 @@ Proof.
   - exact (entry_chain_frame pfx V _ _ _ _ _ _ _ _ _ LW m q acts Hwf Hq).
 Qed.
 
+(** * At the level of the ARENA (Arena.v, Arena2.v: the transcription of src/inner.rs, of the
+      lookups and of EVERY mutator of src/map/mod.rs, of the Entry insertions and OccupiedEntry
+      writes, of get_mut and of the TrieViewMut writes over a vector of nodes with index links, in
+      which every index out of bounds and every [unwrap] of a missing link or value is an explicit
+      [Panic] and every link-following loop / recursion runs on fuel): in every arena state
+      reachable from the empty map by ANY history over that alphabet, none of these operations
+      panics or runs out of fuel, and each loop returns within [length table] iterations. *)
+Theorem C20_arena_total (am : amap pfx V) (q : pfx) (x : V)
+        (f : nat -> pfx -> V -> option bool) (g : V -> V) :
+  reachable2 pfx V (peq w) (contains w fl) (is_bit_set w) plen (lcp w fl) pzero am ->
+  (exists o, t_a_get w fl V am q = Ok o) /\ (exists o, t_a_get_lpm w fl V am q = Ok o) /\
+  (exists r, t_a_insert w fl V am q x = Ok r) /\ (exists r, t_a_remove w fl V am q = Ok r) /\
+  (exists r, t_a_remove_keep_tree w fl V am q = Ok r) /\ (exists es, t_a_entries V am = Ok es) /\
+  (exists am', t_a_remove_children w fl V am q = Ok am') /\
+  (exists r, t_a_retain V f am = Ok r) /\
+  (exists r, t_a_entry_insert w fl V am q x = Ok r) /\
+  (exists am', t_a_get_mut w fl V am q g = Ok am').
+Proof.
+  intros H.
+  destruct (reachable_total2 pfx V (peq w) (contains w fl) (is_bit_set w) plen (lcp w fl) pzero (peqN_len w) eq_refl am q x f g H)
+    as (A1 & A2 & A3 & A4 & A5 & A6 & A7 & A8 & _ & A10 & _ & _ & A13 & _).
+  repeat split; assumption.
+Qed.
+
+(** the values the arena operations return along a history are those of the tree model *)
+Theorem C20_arena_outputs (ops : list (aop pfx V)) :
+  a_outs pfx V (peq w) (contains w fl) (is_bit_set w) plen (lcp w fl) ops (a_empty pfx V pzero) = Ok (t_outs pfx V (peq w) (contains w fl) (is_bit_set w) plen (lcp w fl) ops (Trie.empty pfx V pzero)).
+Proof. exact (outs_sim pfx V (peq w) (contains w fl) (is_bit_set w) plen (lcp w fl) pzero ops). Qed.
+
 End C20.
 
 (** KNOWN FINDING (class occupied-reuse, recorded in KNOWN_FINDINGS.txt): [OccupiedEntry::remove]
@@ -261,4 +290,6 @@ Print Assumptions C20_occupied_reuse_refuted.
 Print Assumptions C20_entry_chain_no_panic.
 Print Assumptions C20_entry_chain_closure_panic.
 Print Assumptions C20_entry_chain_keeps_invariants.
+Print Assumptions C20_arena_total.
+Print Assumptions C20_arena_outputs.
 Print Assumptions entries_id_length.
